@@ -1,5 +1,6 @@
 import Gleece.Properties.C10
 import Gleece.Properties.Link
+import Gleece.Properties.C10Complete
 #print axioms Gleece.Validate.returns_sound
 #print axioms Gleece.Validate.linkValidate_nil_parts
 #print axioms Gleece.Validate.params_referenced
@@ -23,3 +24,8 @@ import Gleece.Properties.Link
 #print axioms Gleece.Doc.templateParams_normPath
 #print axioms Gleece.Doc.tpa_buffer_irrelevant
 #print axioms Gleece.Link.accepted_route_document_closed_partial
+#print axioms Gleece.Validate.goUrl_of_nodup
+#print axioms Gleece.Validate.goPath_of_wellformed
+#print axioms Gleece.Validate.wellLinked_accepted
+#print axioms Gleece.Validate.wellLinkedB_sound
+#print axioms Gleece.Validate.wellLinkedB_accepted
